@@ -114,8 +114,7 @@ def evaluate(ctx, cases, obs, use_model=True):
                 ctx.violation('document %s: PYTHONHASHSEED=0 and PYTHONHASHSEED=%s give different %s: %r vs %r'
                               % (c['gen_seed'], s, ', '.join(dk), first_diff(base.get(k0), o.get(k0))[0],
                                  first_diff(base.get(k0), o.get(k0))[1]),
-                              {'kind': 'hash', 'gen_seed': c['gen_seed'], 'doc': c['doc'], 'differs': dk,
-                               'sorted_equal': sorted_equal(base, o, dk)})
+                              {'kind': 'hash', 'gen_seed': c['gen_seed'], 'doc': c['doc'], 'differs': dk})
                 break
         # ---- model predicts the orders
         if (i, None) in mods:
@@ -123,13 +122,10 @@ def evaluate(ctx, cases, obs, use_model=True):
             for s in SEEDS:
                 d = G.compare_records(mods[(i, None)], ob['seeds'][s], ordered=True)
                 if d is not None:
-                    only_const = G.compare_records(mods[(i, None)], ob['seeds'][s], ordered=False) is None \
-                        and const_tail_only(mods[(i, None)], ob['seeds'][s])
                     ctx.violation('document %s under PYTHONHASHSEED=%s: the order predicted from the document '
                                   '(Model/Loader.v: insertion order) differs from the implementation: %s'
                                   % (c['gen_seed'], s, d),
-                                  {'kind': 'predicted-order', 'gen_seed': c['gen_seed'], 'doc': c['doc'], 'hash_seed': s,
-                                   'const_tail_only': only_const})
+                                  {'kind': 'predicted-order', 'gen_seed': c['gen_seed'], 'doc': c['doc'], 'hash_seed': s})
                     break
         # ---- (b) permutations
         for j, ((kind, d2), o) in enumerate(zip(c['perms'], ob['perms'])):
@@ -157,21 +153,13 @@ def evaluate(ctx, cases, obs, use_model=True):
                         what = 'the order of Model.equations'
             if what is not None:
                 ctx.violation('document %s: permuting %s changes %s' % (c['gen_seed'], kind, what),
-                              {'kind': 'perm', 'perm': kind, 'gen_seed': c['gen_seed'], 'doc': c['doc'], 'permuted': d2,
-                               'const_tail_only': what == 'the order of Model.equations' and const_tail_only(base, o)})
+                              {'kind': 'perm', 'perm': kind, 'gen_seed': c['gen_seed'], 'doc': c['doc'], 'permuted': d2})
             if (i, j) in mods:
                 ctx.corr_cases += 1
                 d = G.compare_records(mods[(i, j)], o, ordered=True)
                 if d is not None:
-                    only_const = G.compare_records(mods[(i, j)], o, ordered=False) is None \
-                        and const_tail_only(mods[(i, j)], o)
-                    if only_const:
-                        ctx.violation('document %s (%s permuted): predicted order differs: %s' % (c['gen_seed'], kind, d),
-                                      {'kind': 'predicted-order', 'gen_seed': c['gen_seed'], 'doc': d2, 'hash_seed': '0',
-                                       'const_tail_only': True})
-                    else:
-                        ctx.tie_break('correspondence (Model/Loader.v vs parser.py) on document %s with %s permuted: %s'
-                                      % (c['gen_seed'], kind, d), {'gen_seed': c['gen_seed'], 'doc': d2})
+                    ctx.tie_break('correspondence (Model/Loader.v vs parser.py) on document %s with %s permuted: %s'
+                                  % (c['gen_seed'], kind, d), {'gen_seed': c['gen_seed'], 'doc': d2})
 
 
 def same_set(a, b):
@@ -187,25 +175,6 @@ def first_diff(a, b):
                 return (x, y)
         return (len(a), len(b))
     return (a, b)
-
-
-def sorted_equal(a, b, keys):
-    return all(same_set(a.get(k), b.get(k)) for k in keys)
-
-
-def const_tail_only(mod, imp):
-    """the model's and the implementation's equation lists agree except for the order of the trailing block of
-    constant-defining equations (what transform_constants appends)"""
-    if mod.get('status') != 'ok' or imp.get('status') != 'ok':
-        return False
-    me, ie = mod['eqs'], imp['eqs']
-    if len(me) != len(ie):
-        return False
-    k = len(me)
-    while k > 0 and me[k - 1]['kind'] == 'const':
-        k -= 1
-    return [e['lhs'] for e in me[:k]] == [e['lhs'] for e in ie[:k]] \
-        and sorted(e['lhs'] for e in me[k:]) == sorted(e['lhs'] for e in ie[k:])
 
 
 def run(ctx):
@@ -256,20 +225,5 @@ def replay(ctx, case):
 
 
 # ---- known findings -------------------------------------------------------------------------------------------------
-def constants_order_hash_dependent(case):
-    """F11: only the ORDER of Model.equations differs, and only inside the trailing block of constant-defining
-    equations appended by transform_constants"""
-    if case.get('kind') == 'hash':
-        return set(case.get('differs', [])) <= {'eq_order', 'eqs'} and case.get('sorted_equal') is True \
-            and n_constants(case['doc']) >= 2
-    if case.get('kind') in ('predicted-order', 'perm'):
-        return case.get('const_tail_only') is True and n_constants(case['doc']) >= 2
-    return False
-
-
-def n_constants(doc):
-    return sum(1 for c in doc['comps'] for v in c['vars'] if v.get('init') is not None)
-
-
-# F11 was repaired by the fix: commit cb3fd7e; nothing is suppressed any more
+# F11 (set iteration in transform_constants) was repaired by the fix: commit cb3fd7e; nothing is suppressed any more
 KNOWN_PREDICATES = {}
